@@ -637,7 +637,7 @@ func TestProp(t *testing.T) {
 	// bounded exhaustive part, sharded: every operator x operand-source pairing at depth 1,
 	// every function x parameter/argument pairing, every error kind x function
 	shard, shards := run.Shard()
-	enum := g.enumerate()
+	enum := append(g.enumerate(), g.enumSigs()...)
 	okAll := true
 	for i, c := range enum {
 		if i%shards != shard {
@@ -656,4 +656,5 @@ func TestProp(t *testing.T) {
 	run.Rapid(t, rec, "expr", g.genExprCase, classify, check)
 	run.Rapid(t, rec, "pipe", g.genPipeCase, classify, check)
 	run.Rapid(t, rec, "err", g.genErrCase, classify, check)
+	run.Rapid(t, rec, "sig", g.genSigCase, classify, check)
 }
